@@ -160,7 +160,7 @@ def laguerre_der(n, alpha, x):
     # see wiki
     # d^k/dx^k L_n^alpha = (-1)^k L_(n-k)^(alpha+k)
     k = 1
-    return laguerre(n-k, alpha+k, x)
+    return -laguerre(n-k, alpha+k, x)
 
 
 def laguerre_der_seq(ns, alpha, x):
@@ -195,4 +195,4 @@ def laguerre_der_seq(ns, alpha, x):
         return out
 
     ns = [n-k for n in ns]
-    return laguerre_seq(ns, alpha+k, x)
+    return -laguerre_seq(ns, alpha+k, x)
